@@ -63,6 +63,31 @@ def scenario(args):
         jobs.append(net.job_call(name[s], "update", enter_update))
         jobs.append(net.job_write(name[d], s, 0, msg(n), budget_ms=8000))        # a frame for the node arrives while it is in its block
         jobs.append(net.job_write(name[s], d, 65, msg(n), budget_ms=8000))
+    elif kind == "shared":
+        # one radio time-shared by several objects of the program (the repository's test_context pattern): another network
+        # node object of a different level, or a FakeBLE object, uses the radio in its own block; the node then enters its
+        # block again, polls, receives and sends
+        s, d, other = p
+
+        def body(ns, nm, other=other):
+            from circuitpython_nrf24l01.rf24_network import RF24Network
+            from circuitpython_nrf24l01.fake_ble import FakeBLE
+            o, chip = ns.objs[nm], ns.chips[nm]
+            if other == "ble":
+                o2 = FakeBLE(sim.FakeSpiDev(chip), 0, sim.Pin(chip))
+                with o2:
+                    o2.advertise(b"hi")
+            else:
+                o2 = RF24Network(sim.FakeSpiDev(chip), 0, sim.Pin(chip), other)
+                with o2:
+                    o2.update()
+            o.__enter__()
+            return o.update()
+        jobs.append(net.job_write(name[d], s, 0, msg(n_ := 5), budget_ms=8000))
+        jobs.append(net.job_call(name[s], "update", body))
+        jobs.append(net.job_multicast(name[d], msg(4), 2, None if other == "ble" else (0 if s == 0 else len(oct(s)) - 2)))
+        jobs.append(net.job_write(name[d], s, 0, msg(6), budget_ms=8000))
+        jobs.append(net.job_write(name[s], d, 65, msg(7), budget_ms=8000))
     elif kind == "mc-toggle":
         # multicast switched off and on again on a running node (each time followed by the documented re-assignment)
         s, other = p
@@ -157,6 +182,8 @@ def build(chk):
             add("routing-mid", (s, d, 65, n))
     for (s, d) in [(0o11, 0o1), (0, 0o2), (0o21, 0o111)]:
         add("context", (s, d, 5))
+    for (s, d, other) in [(0o11, 0o1, 0o3), (0o1, 0, 0o23), (0o21, 0o2, "ble"), (0, 0o1, 0o14), (0o111, 0o11, 0o5), (0o2, 0, "ble")]:
+        add("shared", (s, d, other))
     for (s, d) in [(0o11, 0o1), (0o1, 0), (0o21, 0o111), (0o2, 0o21), (0, 0o1), (0o111, 0o11)]:
         add("mc-toggle", (s, d))
         add("foreign-edit", (s, d))
